@@ -89,6 +89,12 @@ pub struct Rel {
     pub what: &'static str,
 }
 
+/// (property-level) case keys of known findings: oracle violations with these keys are counted, a few are kept
+pub static KNOWN_KEYS: std::sync::Mutex<Vec<String>> = std::sync::Mutex::new(Vec::new());
+fn is_known(key: &str) -> bool {
+    KNOWN_KEYS.lock().map(|k| k.iter().any(|x| key == x || key.starts_with(&format!("{}/", x)))).unwrap_or(false)
+}
+
 pub static MISMATCH_CAP: std::sync::atomic::AtomicUsize = std::sync::atomic::AtomicUsize::new(64);
 fn cap() -> usize {
     MISMATCH_CAP.load(std::sync::atomic::Ordering::Relaxed)
@@ -152,6 +158,7 @@ pub struct Stats {
     pub mismatch_count: u64,
     pub oracle_count: u64,
     pub relations: u64,
+    pub known_count: u64,
     pub samples: Vec<String>,
 }
 
@@ -165,6 +172,7 @@ impl Stats {
         self.mismatch_count += o.mismatch_count;
         self.oracle_count += o.oracle_count;
         self.relations += o.relations;
+        self.known_count += o.known_count;
         for m in o.mismatches {
             if self.mismatches.len() < cap() {
                 self.mismatches.push(m);
@@ -506,7 +514,11 @@ pub fn run_chunk(drv: &str, tmpdir: &str, cases: &[Case]) -> Stats {
                         st.oracle_count += 1;
                     }
                     reported = true;
-                    if st.mismatches.len() < cap() {
+                    let known = oracle && is_known(&c.key);
+                    if known {
+                        st.known_count += 1;
+                    }
+                    if st.mismatches.len() < cap() && (!known || st.known_count <= 8) {
                         st.mismatches.push(Mismatch {
                             tag: c.tag.clone(),
                             key: c.key.clone(),
